@@ -691,7 +691,11 @@ func Place2(t *rapid.T, n *Node, S float64) *Node {
 // an exact leaf under up to depth wrappers from {rigid transform, uniform
 // scale, outward offset}, or the full revolution of an exact 2D profile lying
 // on one side of the axis.
-func GenExact3(t *rapid.T, S float64, depth int) *Node {
+func GenExact3(t *rapid.T, S float64, depth int) *Node { return GenExact3Smooth(t, S, depth, false) }
+
+// GenExact3Smooth is GenExact3; with noCusp the revolved profile never touches the axis (a profile that
+// touches it in one point gives a solid with a cusp there: a surface point without a gradient).
+func GenExact3Smooth(t *rapid.T, S float64, depth int, noCusp bool) *Node {
 	x := &gen{t: t, o: Opts{S: S}}
 	var n *Node
 	if x.intr("rev", 0, 4) == 0 {
@@ -715,7 +719,7 @@ func GenExact3(t *rapid.T, S float64, depth int) *Node {
 			leaf, ext = &Node{Op: "line2", P: []float64{l, rd}}, l/2+rd
 		}
 		px := ext * (1 + 2*x.unit("px"))
-		if x.intr("touch", 0, 3) == 0 {
+		if x.intr("touch", 0, 3) == 0 && !noCusp {
 			px = ext // profile touching the axis at most in one point
 		}
 		prof := &Node{Op: "xform2", K: []*Node{leaf}, I: []int{0}, P: []float64{x.angle("pang"), px, x.coord("py", 1)}}
